@@ -7,7 +7,8 @@
    (HTTP/3 connection cache). *)
 From Coq Require Import List ZArith.
 From ReqV Require Import Lib.Bytes Model.Pool Model.Demux Model.H2Pool Model.H3Cache
-  Proofs.PoolProofs Proofs.DemuxProofs Proofs.H2PoolProofs Proofs.H3CacheProofs.
+  Proofs.PoolProofs Proofs.DemuxProofs Proofs.H2PoolProofs Proofs.H3CacheProofs
+  Gen.C09Sync Proofs.C09SyncProofs.
 Import ListNotations.
 
 (* an HTTP/1.1 connection is handed to at most one request at a time, and is never in the idle
@@ -215,6 +216,25 @@ Theorem C09_h3_reachable_snapshot_ok : forall evs hs n, let s := h3_run evs in
   h3snap_ok n (map (fun h => match clients s h with Some cl => cl_use s cl | None => 0%Z end) hs) = true.
 Proof. exact h3_reachable_snapshot_ok. Qed.
 Print Assumptions C09_h3_reachable_snapshot_ok.
+
+(* ---------- tie to the source text (coq/Gen/C09Sync.v, regenerated by gosync on every run) ---------- *)
+
+(* every critical section the models treat as one atomic step takes its mutex with an exclusive
+   Lock in the Go source as it is now *)
+Theorem C09_lock_regions_present : forall r, In r required_lock_sites -> In r go_lock_sites.
+Proof. exact lock_regions_present. Qed.
+Print Assumptions C09_lock_regions_present.
+
+(* the models' constants are the source's: initialMaxConcurrentStreams, default idle conns per
+   host, first stream id and the id increment of addStreamLocked *)
+Theorem C09_model_constants_agree :
+  initial_max_concurrent = go_initialMaxConcurrentStreams /\
+  default_max_idle_per_host = go_DefaultMaxIdleConnsPerHost /\
+  c_next h2_init 0 = go_firstStreamID /\
+  (forall s c, c_next (new_h2conn s c 0) c = go_firstStreamID) /\
+  go_streamIDStep = 2.
+Proof. exact model_constants_agree. Qed.
+Print Assumptions C09_model_constants_agree.
 
 (* non-vacuity of the HTTP/2 and HTTP/3 machines: two requests share one dialled connection with
    stream ids 1 and 3, a third id is 5 after the first finished; the HTTP/3 client is closed by
